@@ -6,7 +6,15 @@ ALL = ["C%02d" % i for i in range(1, 21)]
 
 # property -> (design section, claim text, level note, technique)
 BUILT = {}
-exec(open(os.path.join(HERE, "tools", "claims.py")).read())
+PENDING = {}
+cd = os.path.join(HERE, "tools", "claims")
+for f in sorted(os.listdir(cd)):
+    if f.endswith(".json"):
+        BUILT[f[:-5]] = json.load(open(os.path.join(cd, f)))
+if os.path.exists(os.path.join(cd, "PENDING.txt")):
+    for ln in open(os.path.join(cd, "PENDING.txt")):
+        if ":" in ln:
+            k, v = ln.split(":", 1); PENDING[k.strip()] = v.strip()
 
 NOTE_COMMON = ("Trusted: Coq 8.16.1 kernel incl. vm_compute (no native_compute); hand-written Gallina model tied to /repo by the "
                "function-granular correspondence run on every invocation (extracted OCaml driver vs the implementation); "
